@@ -522,8 +522,10 @@ def process_fn(unit, lines, i, arg, rel_tpl):
         elif s.startswith('//@rename'):
             renames.update(dict(p.split('=') for p in s.split()[1:]))
         elif s.startswith('//@sub'):
-            old, new = s[len('//@sub'):].split(' ==> ', 1)
-            subs.append((old.strip(), new.strip()))
+            parts_ = s[len('//@sub'):].split(' ==> ', 1)
+            if len(parts_) != 2:
+                raise AssembleError('bad //@sub at %s:%d' % (rel_tpl, j + 1))
+            subs.append((parts_[0].strip(), parts_[1].strip()))
         elif s.startswith('//@'):
             raise AssembleError('unknown fn directive %s at %s:%d' % (s, rel_tpl, j + 1))
         else:
@@ -586,10 +588,12 @@ def process_fn(unit, lines, i, arg, rel_tpl):
     sig = tokens_rename(sig, renames, st)
     body = tokens_rename(body, renames, st)
     for old, new in subs:
-        cnt = body.count(old)
-        if cnt != 1:
-            raise AssembleError('fn %s: //@sub anchor %r matched %d times' % (name, old, cnt))
-        body = body.replace(old, new)
+        # whitespace-insensitive, must match exactly once
+        rx = r'\s*'.join(re.escape(ch) for ch in old if not ch.isspace())
+        ms = list(re.finditer(rx, body))
+        if len(ms) != 1:
+            raise AssembleError('fn %s: //@sub anchor %r matched %d times' % (name, old, len(ms)))
+        body = body[:ms[0].start()] + new + body[ms[0].end():]
         st['Rsub_declared'] = st.get('Rsub_declared', 0) + 1
     body = rewrite_body(body, 'total' if total else mode, st)
 
